@@ -57,7 +57,7 @@ Print Assumptions C14_vmap_elementwise_readback.
 
 (* non-vacuity *)
 Example C14_example_flatten :
-  length (leaves ex_tree) = 8 /\ unflatten (treedef ex_tree) (leaves ex_tree) = Some (ex_tree, []).
+  length (leaves ex_tree) = 9 /\ unflatten (treedef ex_tree) (leaves ex_tree) = Some (ex_tree, []).
 Proof. vm_compute. split; reflexivity. Qed.
 Example C14_example_serialise :
   same_struct same_meta_t ex_like ex_obj /\ ex_like <> ex_obj /\
